@@ -153,7 +153,7 @@ def noise(rng, maxlen):
 # the predicates takes strangers, bridges, both services and Resets into account).
 # ---------------------------------------------------------------------------------------------------------------
 IFMACS = [OWN, OWN2, '00005e000001']
-BLOBS = ['none', '-', 'gen:5:7', 'gen:300:1', 'gen:542:2', 'gen:543:3', 'gen:3000:4']
+BLOBS = ['none', '-', '-', 'gen:5:7', 'gen:300:1', 'gen:542:2', 'gen:543:3', 'gen:3000:4']
 # hardware identifiers (UCS-2LE): ASCII, characters whose LOW byte is zero (U+4E00, U+0100, U+3000), full 64 bytes, an embedded NUL character
 HWIDS = ['-', '4100', '41004200430044004500', 'ab' * 64, '4100004e4200', '00014100', '4d006f00640065006c002d004100004e2d003700',
          '4100' * 10 + '0001' + '4200' * 21, '41004200000043004400', '0030']
@@ -186,6 +186,8 @@ def universal(rng, nif=None, length=None, with_glob_changes=True):
     hostlen = rng.choice([0, 1, 6, 6, 31, 32, 33, 40])
     ops.append(glob_line(host=(''.join('%02x' % rng.randrange(1, 256) for _ in range(hostlen)) or '-'), hostrep=rng.choice(['copied', 'copied', 'full']),
                          icon=rng.choice(BLOBS), fname=rng.choice(BLOBS[:5] + ['4c004c00']), hwid=rng.choice(HWIDS)))
+    if rng.random() < 0.4:
+        ops.append('glob emptyrep=block')       # an empty icon / name comes as a zero-length block, not as NULL
     pool = STATIONS[:4]
     alloc = list(mtus)             # the receive buffers keep the size of the MTU at creation; `mtus` is the current MTU
     mapper = [None] * nif          # who the generator believes is active (only a bias for choosing senders)
@@ -273,7 +275,7 @@ def universal(rng, nif=None, length=None, with_glob_changes=True):
         if with_glob_changes and rng.random() < 0.05:
             ops.append(rng.choice(['glob icon=%s' % rng.choice(BLOBS), 'glob fname=%s' % rng.choice(BLOBS[:5]),
                                    'glob host=%s' % (''.join('%02x' % rng.randrange(1, 256) for _ in range(rng.choice([0, 2, 13, 32, 33]))) or '-'),
-                                   'glob hwid=%s' % rng.choice(HWIDS)]))
+                                   'glob hwid=%s' % rng.choice(HWIDS), 'glob emptyrep=%s' % rng.choice(['block', 'null'])]))
     for i in range(nif):
         ops.append('dump %d' % i)
     if nif >= 2 and rng.random() < 0.5:
